@@ -15,7 +15,10 @@ def fresh_axes():
     matplotlib.use("Agg")
     import matplotlib.pyplot as plt
 
-    fig, ax = plt.subplots()
+    # two axes: the one handed to the library is NOT pyplot's current axes
+    fig, (ax, other) = plt.subplots(1, 2)
+    plt.sca(other)
+    fresh_axes.other = other
     return plt, fig, ax
 
 
@@ -70,6 +73,14 @@ class C19(Prop):
                     c["etas"] = sorted(set(rng.sample(vals, min(len(vals), rng.randint(1, 5))) + [rng.randint(-8, 24) / 4 for _ in range(2)]))
                 if len(set(y + [v for col in cols for v in col])) < 2:
                     continue
+                if rng.random() < 0.35:
+                    # float32 predictions on a decimal grid, thresholds on the same decimals (not equal in double precision)
+                    import numpy as _np
+
+                    c["pdtype"] = "float32"
+                    c["cols"] = [[float(_np.float32(rng.randint(0, 10) / 10)) for _ in range(n)] for _ in range(nm)]
+                    c["y"] = [rng.randint(0, 10) / 10 for _ in range(n)]
+                    c["etas"] = [k / 10 for k in range(11)]
             else:
                 if rng.random() < 0.6:
                     kindf, vals = tc.gen_numeric_feature(rng, n, rng.choice(["float", "float_null", "int", "few"]))
@@ -88,6 +99,8 @@ class C19(Prop):
 
         y = np.array(case["y"])
         P = np.array(case["cols"])
+        if case.get("pdtype"):
+            P = P.astype(case["pdtype"])
         P = P[0] if P.shape[0] == 1 else P.T
         w = None if case["w"] is None else np.array(case["w"])
         plt, fig, ax = fresh_axes()
@@ -109,7 +122,8 @@ class C19(Prop):
                 feat = feature_series(case)
                 r = plot_bias(y, P, feature=feat, weights=w, functional=case["f"], level=case["level"], n_bins=case["n_bins"],
                               bin_method=case["method"], confidence_level=0, ax=ax)
-            out = {"lines": lines_of(ax), "same_axes": r is ax, "config_same": get_config() == cfg0}
+            out = {"lines": lines_of(ax), "same_axes": r is ax, "config_same": get_config() == cfg0,
+                   "elsewhere": len(fresh_axes.other.get_lines()) + len(fresh_axes.other.collections)}
             if case["stream"] == "bias":
                 df = compute_bias(y, P, feature=feat, weights=w, functional=case["f"], level=case["level"], n_bins=case["n_bins"], bin_method=case["method"])
                 out["table"] = [{"model": r.get("model"), "f": r["f"], "mean": r["bias_mean"]} for r in df.iter_rows(named=True)]
@@ -181,6 +195,8 @@ class C19(Prop):
             return "the function did not return the axes it was given"
         if not io["config_same"]:
             return "get_config() changed during the call"
+        if io.get("elsewhere"):
+            return f"{io['elsewhere']} artist(s) were drawn on another axes than the one given"
         lines = io["lines"]
         nm = len(case["cols"])
         if case["stream"] == "reliability":
